@@ -10,6 +10,7 @@ stdout: JSON list (one per sequence) of lists (one per call) of {"trace": [...],
 Everything observable is recorded into one trace in program order; times are integer ticks.
 """
 import asyncio
+import math
 import inspect
 import json
 import sys
@@ -42,9 +43,66 @@ class Value:
         self.att = att
 
 
+CURRENT = [None]     # the World of the call in progress (Suspend has to know how the coroutine is being run)
+
+
 class Suspend:
+    """a suspension point of a scripted component.  Hand-driven coroutines yield the marker to drive(); under the
+    virtual-time event loop (calls with attempt_timeout_s) a bare yield reschedules the task, and a pending
+    CancelledError is delivered the way asyncio delivers it: task.cancel() before the yield."""
+
     def __await__(self):
-        yield self
+        w = CURRENT[0]
+        if w is not None and w.loop_task is not None:
+            if w.pending_throw is not None:
+                exc, w.pending_throw = w.pending_throw, None
+                if isinstance(exc, asyncio.CancelledError):
+                    w.loop_cancel = w.objs[id(exc)]
+                    w.loop_task.cancel()
+                    yield
+                    # only reachable when the code awaiting here was detached from the cancelled run
+                    w.trace.append(["X", "resumed-after-cancel", type(exc).__name__])
+                    raise AssertionError("resumed after cancel")
+                raise exc      # KeyboardInterrupt / SystemExit / GeneratorExit: raised at the await point
+            yield
+        else:
+            yield self
+
+
+class ScriptedTimeout(ScriptedError, TimeoutError):
+    """an operation's own TimeoutError (must surface unchanged through the attempt-timeout wrapper)"""
+
+
+class VSelector:
+    """select() never blocks: the time the loop wanted to wait is added to the virtual clock"""
+
+    def __init__(self, real):
+        self._real = real
+        self._calls = 0
+
+    def select(self, timeout=None):
+        self._calls += 1
+        if self._calls > 200000:
+            raise RuntimeError("virtual-time loop: 200000 iterations without finishing the call")
+        if timeout is None:
+            raise RuntimeError("virtual-time loop: nothing scheduled, the run would block forever")
+        if timeout > 0:
+            CLOCK.ticks += int(math.ceil(timeout * 64.0 - 1e-9))
+        return self._real.select(0)
+
+    def __getattr__(self, name):
+        return getattr(self._real, name)
+
+
+class VLoop(asyncio.SelectorEventLoop):
+    def __init__(self):
+        super().__init__()
+        self._selector = VSelector(self._selector)
+        # timers are due when their time is reached on the tick grid (the default 1 ns is lost in rounding at t ~ 2**30 s)
+        self._clock_resolution = vclock.TICK / 2
+
+    def time(self):
+        return CLOCK.ticks * vclock.TICK
 
 
 STATUS_OF = {"AUTH": 401, "PERMISSION": 403, "PERMANENT": 404, "CONCURRENCY": 409, "RATE_LIMIT": 429,
@@ -84,6 +142,9 @@ class World:
         self.no_retry = bool(shared.seq["policies"][call["policy"]].get("no_retry"))
 
     # ---- identity bookkeeping ----
+    loop_task = None
+    loop_cancel = None
+
     def remember(self, obj, tag, att):
         self.objs[id(obj)] = (tag, att)
         self.keep.append(obj)
@@ -103,8 +164,15 @@ class World:
         i = self.invocations
         self.invocations += 1
         att = i + 1
-        kind, dur, klass, ra = (nth(self.env["ops"], i, None) or ["V", 0, None, None])[:4]
+        op = nth(self.env["ops"], i, None) or ["V", 0, None, None]
+        kind, dur, klass, ra = op[:4]
+        self.cur_op_flag = op[4] if len(op) > 4 and kind == "R" else None
+        if self.cur_op_flag is not None and (self.no_retry or self.cfg.get("att_timeout") is None):
+            # no attempt-timeout wrapper around this call: nothing would time a hung operation out, and without a retry
+            # component default_classifier decides the class (a TimeoutError type would steer it): a plain failure
+            self.cur_op_flag = None
         self.trace.append(["I", att, CLOCK.ticks])
+        self.op_start = CLOCK.ticks
         CLOCK.ticks += dur
         return i, att, kind, klass, ra
 
@@ -112,7 +180,7 @@ class World:
         if kind == "V":
             return self.remember(Value(att), "V", att)
         if kind == "R":
-            err = ScriptedError("scripted failure %d" % att)
+            err = (ScriptedTimeout if self.cur_op_flag == "te" else ScriptedError)("scripted failure %d" % att)
             st = STATUS_OF.get(klass) if self.no_retry else None
             if st is not None:
                 err.status = st     # default_classifier (used when no retry is configured) answers the scripted class
@@ -132,6 +200,13 @@ class World:
 
     def sync_op(self):
         i, att, kind, klass, ra = self.op_common()
+        if self.cur_op_flag == "hang":
+            # hangs past the attempt timeout: the worker thread is abandoned by the runner.  The virtual clock is moved to
+            # the instant of the timeout; the thread then outlives the real timeout without touching anything.
+            t = self.cfg["att_timeout"]
+            CLOCK.ticks = self.op_start + t
+            vclock.REAL_SLEEP(t * vclock.TICK + 0.6)
+            return None
         return self.op_finish(att, kind, klass)
 
     async def async_op(self):
@@ -141,6 +216,10 @@ class World:
             self.pending_throw = self.remember(CANCEL[klass](), "C", att)
             await Suspend()
             raise AssertionError("resumed after throw")
+        if self.cur_op_flag == "hang":
+            # hangs until the attempt timeout cancels it (virtual-time loop only)
+            await asyncio.get_running_loop().create_future()
+            raise AssertionError("hung operation resumed")
         if self.variant.get("suspend_op"):
             await Suspend()
         return self.op_finish(att, kind, klass)
@@ -154,7 +233,13 @@ class World:
 
     def classifier(self, exc):
         r = self.objs.get(id(exc))
-        if r is None or r[0] not in ("E", "O"):
+        if r is None and isinstance(exc, TimeoutError):
+            cur = nth(self.env["ops"], self.invocations - 1, None)
+            if cur is not None and len(cur) > 4 and cur[0] == "R" and cur[4] == "hang":
+                # the runner's own TimeoutError for the attempt that hung: from here on it is "the exception of that attempt"
+                self.remember(exc, "TO", self.invocations)
+                r = ("TO", self.invocations)
+        if r is None or r[0] not in ("E", "O", "TO"):
             self.trace.append(["K?", type(exc).__name__])
             return ErrorClass.UNKNOWN
         att = r[1]
@@ -338,6 +423,8 @@ class Shared:
             max_unknown_attempts=pcfg["max_unknown"],
             per_class_max_attempts={ErrorClass[k]: v for k, v in pcfg["per_class"].items()} or None,
         )
+        if pcfg.get("att_timeout") is not None:
+            kw["attempt_timeout_s"] = pcfg["att_timeout"] * vclock.TICK
         if pcfg["has_rc"]:
             kw["result_classifier"] = lambda val: sh.w().result_classifier(val)
         if pcfg["strat_default"] is not None:
@@ -508,12 +595,15 @@ def enc_exception(w, e):
             return ["abort"]
         if tag == "N":
             return ["nested", att]
-        if tag == "O":
+        if tag in ("O", "TO"):
             return ["raise_op", att]
         if tag == "C":
             return ["cancel", [k for k, v in CANCEL.items() if type(e) is v][0], att]
         if tag == "CS":
             return ["cancel_sleep", [k for k, v in CANCEL.items() if type(e) is v][0], att]
+    if isinstance(e, asyncio.CancelledError) and w.loop_cancel is not None:
+        tag, att = w.loop_cancel      # the CancelledError asyncio made for the cancel() issued at a scripted await
+        return ["cancel" if tag == "C" else "cancel_sleep", "cancelled", att]
     if isinstance(e, AbortRetryError):
         return ["abort"]
     if isinstance(e, RetryExhaustedError):
@@ -527,8 +617,34 @@ def enc_exception(w, e):
     return ["other_exc", type(e).__name__, str(e)[:200]]
 
 
+def drive_loop(coro, w):
+    """run a coroutine as a task of a real asyncio event loop on virtual time"""
+    loop = VLoop()
+    try:
+        task = loop.create_task(coro)
+        w.loop_task = task
+        return loop.run_until_complete(task)
+    finally:
+        # work the run left behind on the loop (e.g. an operation detached into its own task) is given a chance to show
+        # itself: whatever it does lands in the trace after the point where the run ended
+        orphans = [t for t in asyncio.all_tasks(loop) if not t.done()]
+        if orphans:
+            w.trace.append(["X", "tasks-left-running", len(orphans)])
+            for _ in range(3):
+                loop.call_soon(loop.stop)
+                loop.run_forever()
+            for t in orphans:
+                t.cancel()
+            loop.call_soon(loop.stop)
+            loop.run_forever()
+        w.loop_task = None
+        loop.close()
+
+
 def drive(coro, w):
     """run a coroutine by hand; throw the pending exception at the suspension point that set it"""
+    if w.cfg.get("att_timeout") is not None:
+        return drive_loop(coro, w)
     try:
         coro.send(None)
         while True:
@@ -585,6 +701,7 @@ def run_sequence(seq):
         CLOCK.ticks += call.get("gap", 0)
         w = World(call, shared)
         shared.cur = w
+        CURRENT[0] = w
         who = "default"
         CLOCK.sleep_hook = lambda s, w=w: w.sleeper_sync("default", s)
         if call["async"]:
